@@ -1023,11 +1023,16 @@ func (d *decoderState) consumeObject(flags *jsonwire.ValueFlags, pos, depth int)
 		if !d.Flags.Get(jsonflags.AllowDuplicateNames) && !names.insertQuoted(quotedName, flags2.IsVerbatim()) {
 			return pos - n, wrapWithObjectName(ErrDuplicateName, quotedName)
 		}
+		// NOTE: Any call that may fetch more data may move or reallocate d.buf,
+		// so the name must be re-sliced from its absolute offset afterwards.
+		nameAbsPos := d.baseOffset + int64(pos-n)
 
 		// Handle after name.
 		pos += jsonwire.ConsumeWhitespace(d.buf[pos:])
 		if d.needMore(pos) {
-			if pos, err = d.consumeWhitespace(pos); err != nil {
+			pos, err = d.consumeWhitespace(pos) // may mutate d.buf
+			quotedName = d.buf[int(nameAbsPos-d.baseOffset):][:n]
+			if err != nil {
 				return pos, wrapWithObjectName(err, quotedName)
 			}
 		}
@@ -1040,12 +1045,15 @@ func (d *decoderState) consumeObject(flags *jsonwire.ValueFlags, pos, depth int)
 		// Handle before value.
 		pos += jsonwire.ConsumeWhitespace(d.buf[pos:])
 		if d.needMore(pos) {
-			if pos, err = d.consumeWhitespace(pos); err != nil {
+			pos, err = d.consumeWhitespace(pos) // may mutate d.buf
+			quotedName = d.buf[int(nameAbsPos-d.baseOffset):][:n]
+			if err != nil {
 				return pos, wrapWithObjectName(err, quotedName)
 			}
 		}
-		pos, err = d.consumeValue(flags, pos, depth)
+		pos, err = d.consumeValue(flags, pos, depth) // may mutate d.buf
 		if err != nil {
+			quotedName = d.buf[int(nameAbsPos-d.baseOffset):][:n]
 			return pos, wrapWithObjectName(err, quotedName)
 		}
 
